@@ -123,6 +123,10 @@ struct RInfo { RNode *child = nullptr; bool leaf = true, toggle = false, nullchi
 struct DynPorts : Ports { DynPorts() : Ports({}) {} void finish() { refreshMagic(); } };
 struct RNode { DynPorts ports; std::vector<std::unique_ptr<RInfo>> infos; std::vector<std::unique_ptr<RNode>> kids; std::vector<std::unique_ptr<std::string>> strs; bool any_enum = false, any_sub = false, dflt = false, hashed = false; };
 static volatile long leaf_calls = 0, dflt_calls = 0; static int dummy_obj;
+// Callbacks of a real application capture state: the functors below are larger than the small-object buffer of std::function (16 bytes
+// in libstdc++), so that a COPY of a port callback or of the default handler anywhere on the dispatch path costs an allocation.
+struct Fat { void *a, *b, *c, *d; };
+static Fat fat_capture = {&fat_capture, nullptr, nullptr, nullptr};
 static void r_leaf(RInfo *pi, const char *msg, RtData &d) { ++leaf_calls; if (pi->toggle && d.loc && !*rtosc_argument_string(msg)) d.reply(d.loc, "F"); }
 static void r_sub(RInfo *pi, const char *msg, RtData &d) {
     if (pi->nullchild) return; d.obj = &dummy_obj;
@@ -137,9 +141,10 @@ static std::unique_ptr<RNode> build(const J &tb) {
         pi->toggle = mt.find("toggle") != std::string::npos; if (nm.find('#') != std::string::npos) n->any_enum = true;
         if (!pi->leaf) { n->any_sub = true; n->kids.push_back(build(jp["sub"])); pi->child = n->kids.back().get(); }
         RInfo *p = pi.get(); Port port; port.name = nm.c_str(); port.metadata = mt.empty() ? nullptr : mt.data(); port.ports = p->leaf ? nullptr : &p->child->ports;
-        if (p->leaf) port.cb = [p](const char *m, RtData &d) { r_leaf(p, m, d); }; else port.cb = [p](const char *m, RtData &d) { r_sub(p, m, d); };
+        Fat fat = fat_capture;
+        if (p->leaf) port.cb = [p, fat](const char *m, RtData &d) { (void)fat; r_leaf(p, m, d); }; else port.cb = [p, fat](const char *m, RtData &d) { (void)fat; r_sub(p, m, d); };
         n->ports.ports.push_back(port); n->infos.push_back(std::move(pi)); }
-    if (tb["dflt"].b) { n->dflt = true; n->ports.default_handler = [](const char *, RtData &) { ++dflt_calls; }; }
+    if (tb["dflt"].b) { n->dflt = true; Fat fat = fat_capture; n->ports.default_handler = [fat](const char *, RtData &) { (void)fat; ++dflt_calls; }; }
     // refreshMagic prints a diagnostic when no perfect hash exists: capture it to classify the table
     fflush(stderr); int saved = dup(2); char tmpl[] = "/tmp/vrtXXXXXX"; int fd = mkstemp(tmpl); dup2(fd, 2); close(fd);
     n->ports.finish();
